@@ -2,6 +2,7 @@ package goatlang
 
 import (
 	"fmt"
+	"strings"
 	"text/scanner"
 
 	"golang.org/x/exp/slices"
@@ -127,6 +128,25 @@ func (p *parser) Expression(rbp int, mask ...string) *token {
 	return tok
 }
 
+// semicolonBefore reports whether Go's lexer would have put a semicolon in front of the current token: it is the
+// first token of its line and the line before ended in an operand (an identifier, a literal, a closing bracket,
+// ++ or --). An expression is continued on the next line by ending the line with the operator, not by starting the
+// next line with it: x := a followed by (b).c = 1 on the next line is two statements, not a call of a.
+func (p *parser) semicolonBefore() bool {
+	if p.N < 2 {
+		return false
+	}
+	prev := p.Tokens[p.N-2]
+	if p.Token.Pos.Line <= prev.Pos.Line+strings.Count(prev.Text, "\n") { // a raw string may end on a later line
+		return false
+	}
+	switch prev.Symbol {
+	case "(name)", "(int)", "(float)", "(char)", "(string)", ")", "]", "}", "++", "--":
+		return true
+	}
+	return false
+}
+
 func (p *parser) doExpression(rbp int) *token {
 	// every recursion of the parser passes through here (some prefix operators call it directly)
 	p.nest++
@@ -140,7 +160,7 @@ func (p *parser) doExpression(rbp int) *token {
 	if left == nil {
 		return nil
 	}
-	for rbp < getSymbol(p.Token).Lbp && !slices.Contains(p.mask, p.Token.Symbol) {
+	for rbp < getSymbol(p.Token).Lbp && !slices.Contains(p.mask, p.Token.Symbol) && !p.semicolonBefore() {
 		t = p.Token
 		p.Next()
 		left = getSymbol(t).Led(p, t, left)
